@@ -50,6 +50,7 @@ def check_expand_x(case, rec):
     check_expand(case, rec, True)
 
 
+SHRINK = {'expand', 'expand-x'}
 CHECKS = {'expand': check_expand, 'expand-x': check_expand_x}
 
 
